@@ -168,6 +168,18 @@ theorem rmul_keeps_zero {n : Int} {e r : Equil α} (h : rmul n e = .ok r) (k : S
 theorem rmul_ok_iff (n : Int) (e : Equil α) :
     (∃ r, rmul n e = .ok r) ↔ n ≠ 0 ∧ (∃ k, e.net k ≠ 0) ∧ (n < 0 → e.K ≠ some 0) := rmul_isOk n e
 
+/-- the same for the multiplier as Python hands it over (`none` = not an integer: `str`, `None`, `complex`, `Decimal`, a
+    non-integral float / `Fraction` / numpy or sympy number): refused with `TypeError`, whatever the operand -/
+theorem rmul_any_ok_iff (m : Option Int) (e : Equil α) :
+    (∃ r, rmulPy m e = .ok r) ↔ ∃ n, m = some n ∧ n ≠ 0 ∧ (∃ k, e.net k ≠ 0) ∧ (n < 0 → e.K ≠ some 0) := rmulPy_isOk m e
+
+/-- the constructor with its default checks returns an equilibrium **iff** no coefficient is negative (0 is accepted) and
+    some species has a non-zero net coefficient (inactive parts included) -/
+theorem constructor_ok_iff (d : Bool) (r p ir ip : List (String × Int)) (K : Option α) :
+    (∃ e, mkEqChecks d r p ir ip K none none = .ok e) ↔
+      (∀ kv ∈ r ++ p ++ ir ++ ip, 0 ≤ kv.2) ∧ ∃ k, getI p k - getI r k + getI ip k - getI ir k ≠ 0 :=
+  mkEqChecks_default d r p ir ip K
+
 /-- `a + b` returns an equilibrium **iff** both or neither operand has a constant and some species does not cancel -/
 theorem add_ok_iff (a b : Equil α) :
     (∃ r, add a b = .ok r) ↔ (a.K = none ↔ b.K = none) ∧ ∃ k, a.activeNet k + b.activeNet k ≠ 0 := add_isOk a b
@@ -269,6 +281,9 @@ def exA : Equil Rat := ⟨[("Cd+2", 4), ("H2O", 4)], [("Cd4(OH)4+4", 1), ("H+", 
 def exB : Equil Rat := ⟨[("Cd(OH)2(s)", 1)], [("Cd+2", 1), ("OH-", 2)], [], [], some (5/7 : Rat)⟩
 /-- H2O = H+ + OH- ; K = 1/10^14 -/
 def exW : Equil Rat := ⟨[("H2O", 1)], [("H+", 1), ("OH-", 1)], [], [], some (1/100000000000000 : Rat)⟩
+def errOf {β : Type} : Except String β → Option String
+  | .ok _ => none
+  | .error s => some s
 def isOk {β : Type} : Except String β → Bool
   | .ok _ => true
   | .error _ => false
@@ -294,6 +309,18 @@ example : (rmul 2 (⟨[("A", 0), ("B", 1)], [("C", 1)], [], [], some 3⟩ : Equi
     = some [("A", 0), ("B", 2)] := by decide +kernel
 /-- a history re-using objects: s = a + b; t = s - a  (the second statement uses `a` again) -/
 example : (runHistory [.ok exA, .ok exB] [.add 0 1, .sub 2 0]).map isOk = [true, true, true, true] := by decide +kernel
+/-- an operand without net effect exists (built with `checks=()`); scaling it is refused (the "net effect" clause of `rmul_ok_iff` is not vacuous) -/
+example : (mkEqChecks true [("A", 1)] [("A", 1)] [] [] (some (2 : Rat)) (some []) none).toOption.map (fun e => (isOk (rmul 3 e), e.anyEffect))
+    = some (false, false) := by decide +kernel
+/-- constructor refusals: negative coefficient, no effect, `checks` and `dont_check` together, unknown check name -/
+example : errOf (mkEqChecks true [("A", -1)] [("B", 1)] [] [] (some (2 : Rat)) none none) = some "ValueError" ∧
+    errOf (mkEqChecks true [("A", 1)] [("A", 1)] [] [] (some (2 : Rat)) none none) = some "ValueError" ∧
+    errOf (mkEqChecks true [("A", 1)] [("B", 1)] [] [] (some (2 : Rat)) (some []) (some [])) = some "ValueError" ∧
+    errOf (mkEqChecks true [("A", 1)] [("B", 1)] [] [] (some (2 : Rat)) none (some ["spelling"])) = some "AttributeError" ∧
+    errOf (mkEqChecks true [("A", 0), ("B", 1)] [("C", 1)] [] [] (some (2 : Rat)) none none) = none := by decide +kernel
+/-- a multiplier that is not an integer is refused; a rate constant with units without a `units` module too -/
+example : errOf (rmulPy none exA) = some "TypeError" ∧ errOf (asReactionsPy exA (some 3) none false true (1 : Rat)) = some "ValueError" ∧
+    errOf (asReactionsPy exA (some 3) none true true (1 : Rat)) = none := by decide +kernel
 example : intdiv (-7) 2 = -3 ∧ intdiv 7 (-2) = -3 ∧ intdiv (-7) (-2) = 3 := by decide +kernel
 end examples
 
